@@ -50,6 +50,7 @@ class SlowTarget:
 
     def __init__(self):
         self.done = []
+        self.decisions = []
         self.lock = threading.Lock()
 
     def _rec(self, what, tag):
@@ -81,6 +82,19 @@ class SlowTarget:
                 await asyncio.sleep(0)
             return 7000 + tag
 
+    # calls whose outcome is DECIDED in the very callback that also asks the owner's loop to stop (the serial port is lost
+    # while a frame awaits its acknowledgement: the pending future gets its exception and the connection-done callback
+    # stops the thread); the coroutine waits on the decisive future through one hop (a shield), like AshProtocol.send_data
+    async def decided_value(self, tag):
+        fut = asyncio.get_running_loop().create_future()
+        self.decisions.append((fut, ("value", 9000 + tag)))
+        return await asyncio.shield(fut)
+
+    async def decided_raise(self, tag):
+        fut = asyncio.get_running_loop().create_future()
+        self.decisions.append((fut, ("raise", tag)))
+        return await asyncio.shield(fut)
+
 
 def run_stop_case(pattern):
     """coroutine calls of several kinds outstanding through the proxy when the owner's loop is stopped: every caller
@@ -109,7 +123,17 @@ def run_stop_case(pattern):
 
         tasks = [asyncio.ensure_future(one(i, k)) for i, k in enumerate(pattern)]
         await asyncio.sleep(0.05)          # all calls are parked on the owner's loop
-        elt.force_stop()
+        if tgt.decisions:
+            def decide_and_stop():
+                for fut, (how, v) in tgt.decisions:
+                    if how == "value":
+                        fut.set_result(v)
+                    else:
+                        fut.set_exception(KeyError(v))
+                elt.force_stop()           # requested in the same callback that decided the outcomes
+            elt.loop.call_soon_threadsafe(decide_and_stop)
+        else:
+            elt.force_stop()
         out["results"] = await asyncio.gather(*tasks)
         try:
             await asyncio.wait_for(elt.thread_complete, 3)
@@ -130,7 +154,8 @@ def run_stop_case(pattern):
     return out
 
 
-STOP_PATTERNS = [["cleanup", "wait", "wait", "wait"], ["wait", "wait", "cleanup", "wait"], ["raise_quick", "slow_return"],
+STOP_PATTERNS = [["decided_value"], ["decided_raise"], ["decided_value", "wait", "decided_raise"], ["wait", "decided_raise", "decided_value"],
+                 ["cleanup", "wait", "wait", "wait"], ["wait", "wait", "cleanup", "wait"], ["raise_quick", "slow_return"],
                  ["wait"], ["cleanup"], ["slow_return", "raise_quick", "cleanup", "wait"], ["wait", "wait", "wait"]]
 
 
@@ -509,6 +534,12 @@ class Check(PropertyCheck):
                     return f"call {i} ({k}): result not relayed: {r}"
                 if k == "raise_quick" and r not in (["exception", i], ["cancelled"]):
                     return f"call {i} ({k}): exception not relayed: {r}"
+                if k == "decided_value" and r != ["value", 9000 + i]:
+                    return (f"call {i}: its result was decided on the owner's loop in the callback that also requested the stop; the "
+                            f"caller received {r} instead of that result")
+                if k == "decided_raise" and r != ["exception", i]:
+                    return (f"call {i}: the exception it ends with was decided on the owner's loop in the callback that also requested "
+                            f"the stop; the caller received {r} instead of that exception")
             want = [i for i, k in enumerate(case["pattern"]) if k == "cleanup"]
             if obs.get("cleanup_done") != want:
                 return f"clean-up code of calls {want} was abandoned half-way on the owner's loop (finished: {obs.get('cleanup_done')})"
